@@ -62,6 +62,9 @@ def _valuedtype(var):
                 return np.asarray(var[one] if one else var[...]).dtype
         except Exception:
             pass
+    if var.dtype is str:
+        # a netCDF string variable delivers an object array of strings
+        return np.dtype(object)
     return var.dtype
 
 
@@ -2180,7 +2183,7 @@ class PseudoNetCDFFile(PseudoNetCDFSelfReg, object):
             sdims = tuple([(di, dk) for di, dk in enumerate(
                 olddims) if dk not in newdims])[::-1]
             propd = dict([(pk, _getncattr(v, pk)) for pk in v.ncattrs()])
-            ov = outf.createVariable(vk, v.dtype.char, newdims, **propd)
+            ov = outf.createVariable(vk, _valuetype(v), newdims, **propd)
             outvals = v[...]
             for di, dk in sdims:
                 outvals = outvals.take(0, axis=di)
